@@ -23,6 +23,11 @@ import (
 //verif:stub (*github.com/bluenviron/mediacommon/v2/pkg/codecs/h264.DTSExtractor).Extract verifStub_H264Extract
 //verif:stub (*github.com/bluenviron/mediacommon/v2/pkg/codecs/h264.DTSExtractor).Initialize verifStub_H264ExtractInit
 //verif:stub (*github.com/bluenviron/mediacommon/v2/pkg/formats/fmp4.PartSample).FillH264 verifStub_FillH264
+//verif:stub (*github.com/bluenviron/mediacommon/v2/pkg/codecs/h265.DTSExtractor).Extract verifStub_H265Extract
+//verif:stub (*github.com/bluenviron/mediacommon/v2/pkg/codecs/h265.DTSExtractor).Initialize verifStub_H265ExtractInit
+//verif:stub (*github.com/bluenviron/mediacommon/v2/pkg/formats/fmp4.PartSample).FillH265 verifStub_FillH265
+//verif:stub (*github.com/bluenviron/mediacommon/v2/pkg/codecs/h265.SPS).Unmarshal verifStub_H265SPSUnmarshal
+//verif:stub (*github.com/bluenviron/mediacommon/v2/pkg/codecs/av1.SequenceHeader).Unmarshal verifStub_AV1SeqUnmarshal
 //verif:stub (*github.com/bluenviron/mediacommon/v2/pkg/formats/fmp4.Part).Marshal verifStub_PartMarshal
 //verif:stub (*github.com/bluenviron/mediacommon/v2/pkg/formats/fmp4.Parts).Unmarshal verifStub_PartsUnmarshal
 //verif:stub (*github.com/bluenviron/mediacommon/v2/pkg/formats/fmp4.Init).Marshal verifStub_InitMarshal
@@ -72,6 +77,34 @@ func verifStub_FillH264(ps *fmp4.PartSample, ptsOffset int32, au [][]byte) error
 	}
 	ps.PTSOffset = ptsOffset
 	ps.IsNonSyncSample = !verifIsIDR(au)
+	ps.Payload = p
+	return nil
+}
+
+// ---- H265: the harness SPS has no picture reordering, for which the real extractor returns dts = pts ----
+
+func verifStub_H265ExtractInit(d *h265.DTSExtractor) {}
+
+func verifStub_H265Extract(d *h265.DTSExtractor, au [][]byte, pts int64) (int64, error) { return pts, nil }
+
+func verifIsH265RA(au [][]byte) bool {
+	for _, n := range au {
+		if len(n) > 0 {
+			if t := (n[0] >> 1) & 0x3F; t == 19 || t == 20 || t == 21 {
+				return true
+			}
+		}
+	}
+	return false
+}
+
+func verifStub_FillH265(ps *fmp4.PartSample, ptsOffset int32, au [][]byte) error {
+	var p []byte
+	for _, n := range au {
+		p = append(p, n...)
+	}
+	ps.PTSOffset = ptsOffset
+	ps.IsNonSyncSample = !verifIsH265RA(au)
 	ps.Payload = p
 	return nil
 }
